@@ -129,6 +129,30 @@ class Interp:
         s.add(*self.assumptions, *self.pc, *self.defs, *extra)
         return s
 
+    def qcheck(self, extra=()):
+        """(result, model or None) of assumptions + pc + defs + extra, on an incremental solver that keeps the
+        (growing) assumptions asserted; unknown falls back to a fresh solver"""
+        sol = getattr(self, "_inc", None)
+        if sol is None:
+            sol = self._inc = z3.Solver()
+            sol.set("timeout", self.feas_timeout)
+            self._inc_n = 0
+        if self._inc_n < len(self.assumptions):
+            sol.add(*self.assumptions[self._inc_n:])
+            self._inc_n = len(self.assumptions)
+        sol.push()
+        try:
+            sol.add(*self.pc, *self.defs, *extra)
+            r = sol.check()
+            m = sol.model() if r == z3.sat else None
+        finally:
+            sol.pop()
+        if r == z3.unknown:
+            s2 = self.solver(extra)
+            r = s2.check()
+            m = s2.model() if r == z3.sat else None
+        return r, m
+
     def entails(self, t):
         """does assumptions + pc imply t ? (unknown -> False)"""
         # replay stability: the first answer for (path condition, term) is final.  Assumptions only grow, so a
@@ -142,7 +166,7 @@ class Interp:
             r = False           # the cached model of assumptions + pc falsifies t
         else:
             self.nqueries += 1
-            r = self.solver([z3.Not(t)]).check() == z3.unsat
+            r = self.qcheck([z3.Not(t)])[0] == z3.unsat
         self.entails_cache[key] = (r, t, list(self.pc))      # keeps the terms alive: ids stay unique
         return r
 
@@ -150,16 +174,16 @@ class Interp:
         """is assumptions + pc + t satisfiable?  unknown counts as feasible (explores more, never less).
         returns (feasible, model or None)"""
         self.nqueries += 1
-        sol = self.solver([t])
-        r = sol.check()
+        r, m = self.qcheck([t])
         if r == z3.unknown:
             sol = z3.Solver()
             sol.set("timeout", 4 * self.feas_timeout)
             sol.add(*self.assumptions, *self.pc, *self.defs, t)
             r = sol.check()
+            m = sol.model() if r == z3.sat else None
             if r == z3.unknown:
                 self.unknown_feasibility += 1
-        return r != z3.unsat, (sol.model() if r == z3.sat else None)
+        return r != z3.unsat, m
 
     def model_says(self, t):
         """truth value of t under the cached model of assumptions + pc, or None"""
@@ -839,15 +863,13 @@ class Interp:
         v = None
         m = self.cur_model if self.cur_model_key == (len(self.assumptions), len(self.pc)) else None
         if m is None:
-            sol = self.solver()
             self.nqueries += 1
-            if sol.check() == z3.sat:
-                m = sol.model()
+            m = self.qcheck()[1]
         if m is not None:
             cand = m.eval(ln, model_completion=True)
             if z3.is_int_value(cand):
                 self.nqueries += 1
-                if self.solver([ln != cand]).check() == z3.unsat:
+                if self.qcheck([ln != cand])[0] == z3.unsat:
                     v = cand.as_long()
         self.entails_cache[key] = (v, ln, list(self.pc))
         return v
@@ -859,11 +881,10 @@ class Interp:
             return v
         if not isinstance(v, SStr):
             return None
-        sol = self.solver()
         self.nqueries += 1
-        if sol.check() != z3.sat:
+        m = self.qcheck()[1]
+        if m is None:
             return None
-        m = sol.model()
         out = []
         for c in v.chars:
             val = m.eval(c, model_completion=True)
